@@ -115,7 +115,10 @@ pub fn run_history(k: Kind, offers: &[Offer], check_fresh_estimate: bool) -> Res
         let running = b.cost();
         let (generator, fsig, cost) = b.fin()?;
         if cost > max { return Err(format!("finalize returned cost {cost} above the limit {max}")); }
-        if cost > running && !offers.is_empty() { return Err(format!("finalize returned cost {cost} above the running estimate {running}")); }
+        // (a builder on which no offer got past the early budget test still reports the pristine estimate: that is the
+        //  known finding checked by the dedicated fresh-estimate obligation, not reported again per history)
+        let pristine = accepted.is_empty() && running == fresh(k).cost();
+        if cost > running && !offers.is_empty() && !pristine { return Err(format!("finalize returned cost {cost} above the running estimate {running}")); }
         if check_fresh_estimate && cost > running { return Err(format!("a fresh builder estimates its cost as {running} but finalize returns {cost}: the running estimate underestimates the final cost")); }
         // a refused offer leaves the later output unchanged: the same history without the refused offers gives the same output
         if decisions.iter().any(|d| !d.0) {
@@ -156,7 +159,7 @@ pub fn run_history(k: Kind, offers: &[Offer], check_fresh_estimate: bool) -> Res
     match r { Ok(r) => r, Err(_) => Err("panicked (finalize or add_spend_bundles)".into()) }
 }
 
-pub fn histories() -> Vec<(String, Kind, Vec<Offer>)> {
+pub fn histories(thorough: bool) -> Vec<(String, Kind, Vec<Offer>)> {
     let mut v = vec![];
     for k in [Kind::Compressed, Kind::Interned] {
         let kn = if k == Kind::Compressed { "compressed" } else { "interned" };
@@ -165,23 +168,23 @@ pub fn histories() -> Vec<(String, Kind, Vec<Offer>)> {
         v.push((format!("{kn}/three-true-costs"), k, vec![(1, 0, None), (2, 100, None), (3, 0x300, None)]));
         v.push((format!("{kn}/same-puzzle-many"), k, (1..=12).map(|t| (t as u8, 0x80, None)).collect()));
         // the first offer lands on / around the limit, in half-byte steps
-        for d in -6i64..=40 {
+        for d in (if thorough { -40i64..=400 } else { -6i64..=40 }) {
             v.push((format!("{kn}/limit{:+}", d), k, vec![(1, 0, Some(d))]));
         }
         // accepted, then a late or early reject (signed, non-identity signature), then accepted again
-        for d in [-1i64, 0, 1, 2, 3, 8, 30] {
+        for d in (if thorough { (-4i64..=60).collect::<Vec<_>>() } else { vec![-1i64, 0, 1, 2, 3, 8, 30] }) {
             v.push((format!("{kn}/accept-reject{:+}-accept", d), k, vec![(1, 0, None), (2, 0x400, Some(d)), (3, 0, None)]));
         }
     }
     v
 }
 
-pub fn builders_ground() -> EvalResult {
+pub fn builders_ground(thorough: bool) -> EvalResult {
     let mut res = EvalResult { obligations: 0, discharged: 0, failures: vec![], samples: vec![], exhaustive: true };
     let prev = std::panic::take_hook();
     std::panic::set_hook(Box::new(|_| {}));
     let mut trace: Vec<String> = vec![];
-    let hs = histories();
+    let hs = histories(thorough);
     let chunks: Vec<Vec<(String, Kind, Vec<Offer>)>> = hs.chunks((hs.len() + 15) / 16).map(|c| c.to_vec()).collect();
     let handles: Vec<_> = chunks.into_iter().map(|c| std::thread::spawn(move || c.into_iter().map(|(n, k, o)| { let r = run_history(k, &o, n.ends_with("/fresh-estimate")); (n, r) }).collect::<Vec<_>>())).collect();
     for h in handles {
@@ -210,7 +213,7 @@ pub fn replay_builders(input: &Value) -> (bool, String) {
     let prev = std::panic::take_hook();
     std::panic::set_hook(Box::new(|_| {}));
     let mut out = (false, "unknown history".to_string());
-    for (name, k, o) in histories() {
+    for (name, k, o) in histories(true) {
         if name == want {
             out = match run_history(k, &o, name.ends_with("/fresh-estimate")) { Ok(_) => (false, format!("history {name}: holds")), Err(m) => (true, format!("history {name}: {m}")) };
         }
